@@ -107,6 +107,12 @@ func FromGo(x interface{}) Value {
 	case float32:
 		return Value{K: "float", V: FloatTok(float64(t))}
 	case string:
+		// numeric strings denoting a class representative are reported by class label
+		if n, err := strconv.ParseInt(t, 10, 64); err == nil {
+			if tok := IntTok(n); tok != t {
+				return Value{K: "str", V: tok}
+			}
+		}
 		return Value{K: "str", V: t}
 	case EInt:
 		return Value{K: "eint", V: string(t)}
